@@ -133,6 +133,34 @@ fn elems_full<T: V + Clone + Eq + std::hash::Hash + Ord>(r: &mut Rng, c: &mut Co
             }
             expect::<HashSet<T>>(b, &as_set, &origin, r, c, q);
             expect::<BTreeSet<T>>(b, &as_set, &origin, r, c, q);
+            if src.starts_with("unknown-length form") || src == "Vec" {
+                prefixes_rejected::<Vec<T>>(b, &origin, c);
+                prefixes_rejected::<LinkedList<T>>(b, &origin, c);
+                prefixes_rejected::<BTreeSet<T>>(b, &origin, c);
+                if n == 3 {
+                    prefixes_rejected::<[T; 3]>(b, &origin, c);
+                }
+            }
+        }
+    }
+}
+
+/// every strict prefix of `b` must be rejected by target `D` (C08; the unknown-length form is only reachable here)
+fn prefixes_rejected<D: V>(b: &[u8], origin: &str, c: &mut Collector) {
+    for k in 0..b.len() {
+        c.stat("prefix-cuts");
+        match crate::cases::impl_decode::<D>(&b[..k]) {
+            Out::Err(_) => {}
+            other => {
+                c.fail(
+                    "prefix",
+                    "oracle",
+                    &format!("{}|prefix-altform", D::rust_name()),
+                    format!("type={} bytes={} origin={} cut={}", D::rust_name(), hex(&b[..k]), origin, k),
+                    format!("strict prefix of length {} of {} gave {}", k, hex(b), other.kind()),
+                );
+                break;
+            }
         }
     }
 }
